@@ -92,5 +92,23 @@ fn main() {
             c.add_violation(vlab::engine::Violation::new("C17", k, d.clone()), "big-capacity", vlab::util::J::obj().set("kind", vlab::util::J::s("case")).set("case", vlab::util::J::s(d)), vec![]);
         }
     }
+    // Connections closed with unread data, followed by new ones between the same endpoints.
+    for cap in [4u32, 7, 16, 1024] {
+        let (n, v) = match vlab::util::catch(|| c17::run_reconnect(TKind::Model, cap)) {
+            Ok(r) => r,
+            Err(p) => {
+                if vlab::util::is_driver_panic(&p) {
+                    (1, vec![("driver-panic".to_string(), p)])
+                } else {
+                    c.machinery_error(format!("reconnect run: harness panic: {}", p));
+                    (0, vec![])
+                }
+            }
+        };
+        c.add_sweep(&format!("reconnect:{}: three connections in a row between the same endpoints, each filled to the advertised credit, partly read and force-closed", cap), n, 1, true, vlab::util::J::obj());
+        for (k, d) in v {
+            c.add_violation(vlab::engine::Violation::new("C17", k, d.clone()), "reconnect", vlab::util::J::obj().set("kind", vlab::util::J::s("case")).set("case", vlab::util::J::s(d)), vec![]);
+        }
+    }
     c.finish();
 }
